@@ -11,24 +11,37 @@ from . import common
 
 
 def setup():
+    """Build, from files on disk only, everything the registered checks need: regenerate the
+    translated sources, compile the closure of every property file (full .vo), extract and link the
+    per-property model drivers.  One property's breakage does not stop the others (make -k)."""
+    import glob
     t0 = time.time()
+    bad = []
     with common.BuildLock():
         fails = common.regenerate()
         for f in fails:
             print("translate failure:", f)
         common.refresh_makefile()
-        rc, out = common.make()
+        pids = sorted(os.path.basename(p)[:-3].upper() for p in glob.glob(os.path.join(common.VERIF, "harness", "props", "[a-z]*.py"))
+                      if os.path.basename(p) != "__init__.py")
+        targets = []
+        for pid in pids:
+            if os.path.exists(os.path.join(common.COQ, "Props", pid + ".v")):
+                targets.append("Props/%s.vo" % pid)
+            if os.path.exists(os.path.join(common.COQ, pid, "Run.v")):
+                targets.append("%s/Run.vo" % pid)
+        rc, out = common.sh("timeout 3000 make -k -j16 %s 2>&1" % " ".join(targets), cwd=common.COQ, timeout=3100)
         if rc != 0:
-            print(out[-4000:])
-            return 1
-        import glob
-        for run in sorted(glob.glob(os.path.join(common.COQ, "C[0-9][0-9]", "Run.v"))):
-            pid = os.path.basename(os.path.dirname(run))
-            rc, out = common.build_modeld(pid)
-            if rc != 0:
-                print(out[-4000:])
-                return 1
-    print("setup ok in %.0fs" % (time.time() - t0))
+            print(out[-3000:])
+        for pid in pids:
+            if os.path.exists(os.path.join(common.COQ, pid, "Run.vo")):
+                rc2, out2 = common.build_modeld(pid)
+                if rc2 != 0:
+                    bad.append(pid)
+                    print(out2[-1500:])
+            elif os.path.exists(os.path.join(common.COQ, pid, "Run.v")):
+                bad.append(pid)
+    print("setup finished in %.0fs; not built: %s" % (time.time() - t0, bad or "none"))
     return 0
 
 
